@@ -169,7 +169,7 @@ func presentTrace(e *env) error {
 		w.uq, w.ua = 1, 1
 		lens := make([]int, maxID)
 		for i := 1; i <= maxID; i++ {
-			L := lengths[(i+idx)%len(lengths)]
+			L := lengths[(i+idx/7)%len(lengths)] // (idx/7: the sampled case numbers share a stride, their residues must still vary)
 			filler := []string{"x", "é", "水", "y z"}[(i+idx/3)%4]
 			n := string(rune('a'+i)) + "/"
 			for utf8.RuneCountInString(n) < L-1 {
